@@ -7,6 +7,8 @@ import (
 	"os"
 	"path/filepath"
 	"runtime"
+	rdebug "runtime/debug"
+	"runtime/pprof"
 	"sort"
 	"strconv"
 	"strings"
@@ -146,6 +148,12 @@ func cmdCheck(args []string) int {
 	}
 	seed, _ := strconv.Atoi(os.Getenv("VERIF_SEED"))
 	t0 := time.Now()
+	if pf := os.Getenv("SYMGO_PROF"); pf != "" {
+		if f, err := os.Create(pf); err == nil {
+			pprof.StartCPUProfile(f)
+			defer pprof.StopCPUProfile()
+		}
+	}
 
 	checks, err := loadChecks()
 	if err != nil {
@@ -212,6 +220,9 @@ func cmdCheck(args []string) int {
 	// a worker returning from a pipe read (solver answer) must find a free P at once, otherwise it waits for
 	// the 10 ms preemption tick of another CPU-bound worker: keep more Ps than workers
 	runtime.GOMAXPROCS(2*nw + 4)
+	if os.Getenv("GOGC") == "" {
+		rdebug.SetGCPercent(400) // allocation-heavy interpreter, plenty of memory: collect less often
+	}
 	budget := cfg.QuickSecs
 	if budget == 0 {
 		budget = 240
